@@ -245,7 +245,7 @@ CHECKS = {
         "text": "Partial, static (state-lifetime handling, the clause \"'tick state is reset, 'static state is kept\"): every one of the ~29 operators whose table entry admits a persistence "
                 "argument is classified from its generator source (syn): direct — its write_fn matches on Persistence and on the Tick arm emits end-of-tick code that re-initialises (assign / clear / "
                 "drain) a state identifier declared by its prologue template, and emits none on the Static / wildcard arm; delegate — it takes its whole OperatorWriteOutput from another operator and "
-                "does not drop write_tick_end; restricted — it rejects all but one persistence with an error diagnostic. Unclassifiable operators are reported; a direct operator that emits different code per placement must reset under both (pull and push). The values "
+                "does not drop write_tick_end; restricted — it rejects all but one persistence with an error diagnostic. Unclassifiable operators are reported; a direct operator that emits different code per placement must reset under both (pull and push); a template that swaps two state buffers empties the recycled one. The values "
                 "operators compute are NOT decided (needs a reference interpreter).",
         "note": "Thorough tier adds translation validation on the corpus (/verif/corpus, compiled with this tree's dfir_lang, never run): paired 'tick / 'static programs (fold, unique, join) must differ exactly by an end-of-tick state write before __end_tick().",
         "technique": "generator-template analysis (syn token trees: match arms over Persistence, reset forms, prologue slots) + operator table",
